@@ -100,6 +100,7 @@ type Options struct {
 	Trace        bool
 	Concrete     map[string]string // replay: variable values; when non-nil the run is fully concrete
 	KeepGoing    bool              // continue exploring after a violation
+	MaxViolations int              // with KeepGoing: stop exploring a harness after this many violations (0 = never)
 	DumpDir      string
 	Fallback     []string        // solvers tried when the primary answers unknown
 	Tier         int             // 0 quick, 1 thorough (read by harnesses via verifTier)
@@ -201,6 +202,7 @@ type HarnessResult struct {
 	UnknownFeas     int                       `json:"unknown_feasibility"`
 	WallS           float64                   `json:"wall_s"`
 	SamplePaths     []string                  `json:"sample_paths"`
+	StoppedEarly  bool `json:"stopped_early,omitempty"`
 	PathBudgetHit   bool                      `json:"path_budget_hit"`
 	KnownHits       []KnownHit                `json:"known_hits"`
 	Decisions       int                       `json:"decisions"`
@@ -382,8 +384,9 @@ func (p *Program) RunHarness(fn *ssa.Function, opts Options) *HarnessResult {
 			if len(hr.SamplePaths) < 3 && res.Outcome == "ok" {
 				hr.SamplePaths = append(hr.SamplePaths, res.Decisions+" covers="+strings.Join(res.Covers, ","))
 			}
-			if len(hr.Violations) > 0 && !opts.KeepGoing {
+			if len(hr.Violations) > 0 && (!opts.KeepGoing || (opts.MaxViolations > 0 && len(hr.Violations) >= opts.MaxViolations)) {
 				queue = nil
+				hr.StoppedEarly = true
 			}
 			qmu.Unlock()
 			cond.Broadcast()
